@@ -105,6 +105,8 @@ pub trait Ob {
     fn ob_id(&self) -> i64;
     fn ob_take(self) -> i64;
     fn ob_into(self) -> Self::Owned;
+    /// fallible by-value call: Ok(wrapped child) or Err (the payload is consumed either way)
+    fn ob_try(self, fail: bool) -> Result<Self::Owned, ()>;
 }
 
 #[cglue_trait]
@@ -229,6 +231,15 @@ macro_rules! impl_ob {
                 self.0.check();
                 emit("body", self.0.id as usize);
                 P0::new(payload::fresh_id(), (self.0.val + 9) % M)
+            }
+            fn ob_try(self, fail: bool) -> Result<P0, ()> {
+                self.0.check();
+                emit("body", self.0.id as usize);
+                if fail {
+                    Err(())
+                } else {
+                    Ok(P0::new(payload::fresh_id(), (self.0.val + 9) % M))
+                }
             }
         }
     };
